@@ -40,12 +40,24 @@ var ModSeeds = []string{
 	"module example.com/m\n\ngo 1.20\n\nrequire (\n\trequire v1.0.0 // s1\n\texclude v1.1.0 // s2\n)\n\nexclude (\n\texclude v1.0.0 // s3\n\trequire v1.1.0\n)\n\nreplace require => ../require // s4\n\nreplace (\n\treplace v1.0.0 => module v1.2.0 // s5\n)\n",
 	// 15: blank lines inside blocks, followed by leading comments of the next line
 	"module example.com/m\n\ngo 1.20\n\nrequire (\n\ta.com/x v1.0.0 // s1\n\n\t// b2\n\tb.com/y v1.1.0 // s2\n\n\t// b3\n\t// b3b\n\ta.com/x/v2 v2.0.0 // s3\n)\n\nexclude (\n\ta.com/x v1.0.0 // s4\n\n\t// b5\n\ta.com/x v1.1.0 // s5\n)\n",
+	// 17: duplicates spread over single lines and one-line or empty blocks (a sort removes whole blocks)
+	"module example.com/m\n\ngo 1.20\n\nexclude a.com/x v1.0.0\n\nexclude (\n\ta.com/x v1.0.0\n)\n\nexclude a.com/x v1.0.0 // s1\n\nreplace a.com/x => ../x1\n\nreplace (\n\ta.com/x => ../x2\n)\n\nreplace a.com/x => ../x3 // s2\n",
+	// 18: the same with empty blocks in between and tools
+	"module example.com/m\n\ngo 1.21\n\ntool a.com/x/cmd\n\ntool (\n\ta.com/x/cmd\n)\n\ntool a.com/x/cmd // s1\n\nexclude b.com/y v1.0.0\n\nexclude ()\n\nexclude b.com/y v1.0.0\n\nrequire ()\n\nexclude b.com/y v1.0.0 // s2\n",
 }
 
 // ModSeedsTypedOnly are further go.mod seeds for the typed-structure-versus-file check (C15) only: a
 // retract block that carries a comment of its own, which is the rationale of the lines that have none.
 // The set/map model of C08 does not define how a block comment is inherited, so C08 leaves them out.
 var ModSeedsTypedOnly = []string{
+	// a module block whose comment and whose line's comment both speak about deprecation
+	"// Deprecated: use other.example/m\nmodule (\n\t// own\n\texample.com/m\n)\n",
+	"module (\n\texample.com/m // own\n) // Deprecated: gone\n\nrequire a.com/x v1.0.0\n",
+	// an empty block that carries an end-of-line comment of its own
+	"module example.com/m\n\nrequire () // indirect\n",
+	"module example.com/m\n\ngo 1.21\n\nrequire ( // indirect\n)\n\nexclude () // s9\n",
+	// a commented retract block with a blank line between its entries
+	"module example.com/m\n\n// bad\nretract (\n\tv1.0.0\n\n\tv1.1.0\n\tv1.2.0\n)\n",
 	// directives that are usually single lines, in block form (the syntax allows it)
 	"module (\n\texample.com/m\n)\n",
 	"module (\n\texample.com/m // s0\n)\n\nrequire a.com/x v1.0.0\n",
